@@ -12,9 +12,11 @@ runs.  The stencils are polymorphic: statements are over an arbitrary field `K` 
 generated matrix expressions at Mathlib's matrices; §3c is real analysis (the closed forms of linear Poisson models that the L3 oracle
 uses) — the O(eps²) agreement of the finite differences with them is numerical only.
 
-Two statements are *false of the pinned tree* and therefore do not check there (findings F-19a, F-19b): `C19_chi2_scalar_array`
-(`sum_chi2_ppf` leaves `scalar_input` unbound for array input) and `C19_cache_transparent` (the cache key contains only
-`func_ex.__hash__()`, so a freed function's identity can be reused).  Both check once the source is repaired.
+Two statements were *false of the originally pinned tree* (findings F-19a, F-19b, since repaired): `C19_chi2_scalar_array`
+(`sum_chi2_ppf` left `scalar_input` unbound for array input) and `C19_cache_transparent` (the cache key contained only
+`func_ex.__hash__()`, so a freed function's identity could be reused).  One statement is false of the current tree (finding F-19c):
+`C19_boot_mask_kept` (`get_godambe` re-wraps every bootstrap with `Spectrum(boot)`, which masks its corner entries whatever mask the
+bootstrap was given); it checks once `mask_corners=False` is passed (pending_fixes/C19_bootstrap_corners_remasked.diff).
 -/
 set_option autoImplicit false
 set_option linter.unusedTactic false
@@ -413,6 +415,13 @@ theorem C19_ll_ignores_masked (pre post : List LLCell) (c : LLCell) (h : c.mm = 
     rcases h with h | h <;> simp [h]
   unfold llSum
   simp [List.filter_append, hm]
+
+/-- every bootstrap's likelihood is taken on the bootstrap with exactly the mask it was given — as the data's is, so that H (from the
+    data) and J (from the bootstraps) sum over the same kind of entry set.  About the generated `bootMaskKept`; on the pinned tree
+    `boot = Spectrum(boot)` masks the corner entries in addition and this statement does not check (finding F-19c). -/
+theorem C19_boot_mask_kept (given : List Bool) : bootSeenMask given = given := by
+  have h : bootMaskKept = true := by decide
+  simp [bootSeenMask, h]
 
 example : llSum [⟨true, false, 0, 0, 0, 0⟩, ⟨false, true, 4, 7, 3 / 2, 9⟩, ⟨false, false, 2, 3, 1 / 2, 2⟩, ⟨true, true, 0, 0, 0, 0⟩]
     = -2 + 3 * (1 / 2) - 2 := by
